@@ -355,5 +355,4 @@ Proof.
             try (eapply (if1 i0'); rewrite Heqf; simpl; congruence);
             try (eapply (if2 i0'); rewrite Heqf; simpl; congruence);
             try (eapply if1; eassumption); try (eapply if2; eassumption); fail).
-  all: match goal with H : fp _ = ?p |- ?G => idtac "PC" p "|-" G end.
-Show. Abort.
+  all: clear ih ih2 if1 ir imd ia. Show 19. Show 20. Show 21. Show 37. Abort.
